@@ -158,6 +158,9 @@ func (t *loopTr) ident(x *ast.Ident) (string, lkind) {
 // listIdent is ident without the restriction on array pointers (for the operand of an index expression).
 func (t *loopTr) listIdent(x *ast.Ident) (string, lkind) {
 	o := t.info.Uses[x]
+	if s, ok := t.big2PkgVar(x); ok {
+		return s, kBig // stage 12 (loops_big2.go): a package-level *big.Int constant
+	}
 	if _, isNil := o.(*types.Nil); isNil {
 		return "(none : " + t.errKind().lean() + ")", t.errKind()
 	}
@@ -562,6 +565,9 @@ func (t *loopTr) checkAppendTo(call *ast.CallExpr, id *ast.Ident) {
 func (t *loopTr) makeCall(x *ast.CallExpr) (string, lkind) {
 	if len(x.Args) < 2 || len(x.Args) > 3 {
 		t.fail(x, "make needs a length")
+	}
+	if s, k, ok := t.big2MakeStrings(x); ok {
+		return s, k // stage 12 (loops_big2.go): make of a named []string type
 	}
 	ttv := t.typeOf(x.Args[0])
 	if !ttv.IsType() {
